@@ -281,6 +281,8 @@ def run_shard(params, rec):
         for data, origin in ic.stream(spec, rng, params["seed"] * 64 + params["shard"], n, walk):
             # walk candidates get an address derived from their bytes (seed-independent)
             addr = random_addr(spec, random.Random(data) if origin.startswith("walk") else rng)
+            if not ic.selected(spec):
+                continue
             instr, err = ic.decode(spec, data, addr)
             if instr is None:
                 rec.count("%s:undecodable" % spec.name)
